@@ -392,12 +392,13 @@ class RetryExecutor(CanCustomizeBind, Executor):
 
                     break
 
-        # This shouldn't be possible.
-        # - Future holds a lock on itself, and has checked that it's not already done
-        # - The only other path for removing a job is in delegate_callback, but the
-        #   job is only removed *after* set_result/set_exception which would wait
-        #   for the future's lock.
-        assert found_job, "Cancel called on orphan %s" % future
+        if not found_job:
+            # The future is not done, yet owns no job: another thread has
+            # already removed its job in order to resolve the future (e.g. the
+            # submit thread discarding a job after an earlier cancel request)
+            # and is about to set the outcome.  Too late to cancel.
+            self._log.debug("Could not cancel, already being resolved: %s", future)
+            return False
 
         self._log.debug("Try cancel delegate: %s", found_job)
 
